@@ -12,16 +12,16 @@ git apply --check "$src/patch.diff" || { echo "CONFIRM $name: patch does not app
 /venv/bin/python "$src/demo.py" >/tmp/confirm_$$.clean 2>&1; rc_clean=$?
 git apply "$src/patch.diff"
 /venv/bin/python "$src/demo.py" >/tmp/confirm_$$.mut 2>&1; rc_mut=$?
-suite=$(/venv/bin/python -m pytest -q -p no:cacheprovider -n 8 --continue-on-collection-errors --timeout=900 2>&1 | grep -a -E "passed|failed" | tail -1)
-failed=$(/venv/bin/python -m pytest -q -p no:cacheprovider -n 8 --continue-on-collection-errors --timeout=900 2>&1 | grep -a "^FAILED" | head -5)
+suite=$(/verif/tools/repo_test.sh "$wt" 2>&1); suite_rc=$?
+suite=$(echo "$suite" | tr '\n' ' ' | cut -c1-300)
+failed=""
 git checkout -q -- .
 echo "CONFIRM $name: demo clean rc=$rc_clean, mutated rc=$rc_mut; suite: $suite"
 [ -n "$failed" ] && echo "  second run failures: $failed"
 ok=1
 [ $rc_clean -eq 0 ] || ok=0
 [ $rc_mut -ne 0 ] || ok=0
-echo "$suite" | grep -q "2096 passed" || ok=0
-echo "$suite" | grep -q -E "[0-9]+ failed" && ok=0
+[ $suite_rc -eq 0 ] || ok=0
 if [ $ok -eq 1 ]; then
   dst=/verif/seeded/$name; mkdir -p $dst
   cp "$src/patch.diff" "$src/demo.py" $dst/
